@@ -369,9 +369,9 @@ func cyclePrograms(r *rng.R, k int) []cycleCase {
 		add(&Prog{Strict: true, Files: []*File{root, {Path: "inc.thrift", Defs: defs}}}, fmt.Sprintf("constants defined as each other through the defaults of their types, len %d, entered at a constant", n), "")
 	}
 	// acyclic typedefs that are referred to twice by the typedef above them: a search (or a code
-	// generator) without a memo visits the last one 2^depth times. The compiler is linear (finding
-	// D85, repaired); the generator is not (known finding D86: helper declarations are rendered,
-	// recursively, before it is known that they exist already) — at depth 24 it does not finish.
+	// generator) without a memo visits the last one 2^depth times. Both are linear now (findings
+	// D85 and D86, repaired: the cycle search remembers clean types, EnsureDeclared remembers what
+	// it has declared) — at depth 24 neither used to finish.
 	for _, depth := range []int{6, 12, 24} {
 		var defs []*Def
 		for i := 0; i < depth; i++ {
@@ -379,11 +379,7 @@ func cyclePrograms(r *rng.R, k int) []cycleCase {
 			defs = append(defs, &Def{Kind: 'T', Name: fmt.Sprintf("T%d", i), Ty: &TExpr{Kind: "map", A: nx, B: nx}})
 		}
 		defs = append(defs, &Def{Kind: 'T', Name: fmt.Sprintf("T%d", depth), Ty: &TExpr{Kind: "i32"}})
-		known := ""
-		if depth == 24 {
-			known = "D86:gen"
-		}
-		add(oneFile(defs...), fmt.Sprintf("typedefs shared twice per level, depth %d", depth), known)
+		add(oneFile(defs...), fmt.Sprintf("typedefs shared twice per level, depth %d", depth), "")
 	}
 	// deep acyclic structures must be handled without overflowing
 	for _, depth := range []int{50, 400} {
